@@ -123,6 +123,21 @@ def run(ctx):
             callee = index.callee(f.mod, n.value, f) or ""
             if callee.endswith("_get_token_start_idx") or callee.endswith("_get_token_last_idx"):
                 bounds[n.targets[0].id] = (callee.rpartition(".")[2], norm(n.value.args[0]) if n.value.args else None)
+        # a, b = helper(S) where helper returns (_get_token_start_idx(p), _get_token_last_idx(p)) for its parameter p
+        # (possibly through locals, possibly after an early `return None, None`)
+        elif isinstance(n, ast.Assign) and isinstance(n.value, ast.Call) and isinstance(n.targets[0], ast.Tuple) and all(isinstance(t, ast.Name) for t in n.targets[0].elts):
+            h = index.funcs.get(index.callee(f.mod, n.value, f) or "")
+            if h is not None and h.mod is f.mod and len(n.value.args) == 1 and len(h.params) == 1:
+                from ..defuse import expand_aliases
+
+                for r in iter_own(h.node):
+                    if isinstance(r, ast.Return) and isinstance(r.value, ast.Tuple) and len(r.value.elts) == len(n.targets[0].elts):
+                        for t, e in zip(n.targets[0].elts, r.value.elts):
+                            e = expand_aliases(h, e)
+                            if isinstance(e, ast.Call) and e.args and norm(e.args[0]) == h.params[0]:
+                                callee = index.callee(h.mod, e, h) or ""
+                                if callee.endswith("_get_token_start_idx") or callee.endswith("_get_token_last_idx"):
+                                    bounds[t.id] = (callee.rpartition(".")[2], norm(n.value.args[0]))
     ctx.need(len(bounds) >= 4, "the four boundary indices vanished: {}".format(bounds))
 
     def slice_of(e):
@@ -174,9 +189,15 @@ def run(ctx):
                 # a private slicing helper: `return <param>[slice(a, b)]` / `<param>[a:b]` with the arguments bound at the call
                 h = index.funcs.get(index.callee(f.mod, d, f) or "")
                 if h is not None and h.mod is f.mod:
+                    from ..defuse import expand_aliases
+
                     rets = [x for x in h.node.body if isinstance(x, ast.Return)]
-                    plain = all(isinstance(x, ast.Return) or (isinstance(x, ast.Expr) and isinstance(x.value, ast.Constant)) for x in h.node.body)
-                    inner = slice_of(rets[0].value) if len(rets) == 1 and plain else None
+                    # a single return, preceded at most by plain single-definition locals (explaining variables)
+                    plain = all(
+                        isinstance(x, ast.Return) or (isinstance(x, ast.Expr) and isinstance(x.value, ast.Constant)) or (isinstance(x, ast.Assign) and isinstance(x.targets[0], ast.Name))
+                        for x in h.node.body
+                    )
+                    inner = slice_of(expand_aliases(h, rets[0].value)) if len(rets) == 1 and plain else None
                     if inner is not None:
                         bound = {p_: norm(a_) for p_, a_ in zip(h.params, d.args)}
                         bound.update({k_.arg: norm(k_.value) for k_ in d.keywords if k_.arg})
